@@ -37,6 +37,7 @@ DIMS = [
     ("short_flags", [False, True]),
     ("preexisting", [False, True]),   # a longer file already sits at the destination (regeneration)
     ("sname", ["schema.graphql", "schema.graphqls", "schema.gql", "schema.json"]),   # every schema file form the library reads
+    ("qtext", ["lf", "crlf", "comments_tabs_bom_free"]),   # the query file's bytes reach the library unchanged
 ]
 
 
@@ -96,6 +97,14 @@ def argv_for(cfg, root):
     return a
 
 
+def query_bytes(qtext, form):
+    if form == "crlf":
+        return qtext.replace("\n", "\r\n").encode("utf-8")
+    if form == "comments_tabs_bom_free":
+        return ("# leading comment, é\n" + qtext.replace("  ", "\t") + "\n\n# trailing comment\r\n").encode("utf-8")
+    return qtext.encode("utf-8")
+
+
 def snapshot(root):
     out = {}
     for d, _, files in os.walk(root):
@@ -143,8 +152,8 @@ def run(tier):
         os.makedirs(os.path.join(root, "out"))
         with open(os.path.join(root, cfg["sname"]), "w") as f:
             f.write(sjson if cfg["sname"].endswith(".json") else sdl)
-        with open(os.path.join(root, cfg["qname"]), "w") as f:
-            f.write(qtext)
+        with open(os.path.join(root, cfg["qname"]), "wb") as f:
+            f.write(query_bytes(qtext, cfg["qtext"]))
         if cfg["preexisting"]:
             stem = os.path.splitext(os.path.basename(cfg["qname"]))[0]
             dest = os.path.join(root, "out", stem + ".rs") if cfg["outdir"] else os.path.join(root, os.path.dirname(cfg["qname"]), stem + ".rs")
@@ -274,7 +283,7 @@ def run(tier):
     shutil.rmtree(base, ignore_errors=True)
     cov = {
         "evaluations": len(cfgs) + len(fail_cases), "distinct_nontrivial": len(distinct),
-        "rule": "success clause: every setting of 14 dimensions (schema file form .graphql / .graphqls / .gql / .json, pre-existing output, derives, deprecation strategy incl. an invalid value, module "
+        "rule": "success clause: every setting of 15 dimensions (query file bytes LF / CRLF / comments+tabs, schema file form .graphql / .graphqls / .gql / .json, pre-existing output, derives, deprecation strategy incl. an invalid value, module "
                 "visibility, custom scalars module, other-variant, external enums, selected operation incl. a missing one, output "
                 "directory, formatting, query file name, short / long flag spelling) within deviation bound %d of the default "
                 "invocation; failure clause: up to %d instances of every invalidating edit kind of C06, an unparsable query, missing "
